@@ -1000,7 +1000,9 @@ def harvest(ctx, rep, ck):
         for r in records:
             try:
                 script = to_script(r["log"])
-            except ValueError:
+            except ValueError as e:
+                rep.problem("harvest", f"{kind}: operator {r['op']} drew random numbers of a kind the models of the GP operators do not use ({e})",
+                            dict(optimizer=kind, seed=seed, op=r["op"]), "unknown-draw-kind", False)
                 continue
             case = ck.case("harvest", r["op"], r["ps"], r["fit"], r["rk"], r["ml"], 0, r["proba"], uspec, script,
                            None if r["out"] is None else [r["out"]], r["err"], extra=dict(optimizer=kind, seed=seed))
